@@ -457,41 +457,40 @@ def check(ctx, run):
             run.ob("R8", "%s(%s) forwards (size, file, line) in order" % (f.name, ", ".join(pts)), f.site, a == [q["name"] for q in f.params], witness=a)
     if nops < 16:
         run.broke("only %d global operator new/delete overloads found (18 confirmed by hand)" % nops)
-    GET = {"operator_new": "getCurrentNewAllocator()", "operator_new_array": "getCurrentNewArrayAllocator()", "operator_delete": "getCurrentNewAllocator()",
-           "operator_delete_array": "getCurrentNewArrayAllocator()", "malloc": "getCurrentMallocAllocator()", "free": "getCurrentMallocAllocator()", "realloc": "getCurrentMallocAllocator()"}
+    from .C10 import slot_fold
+    GETV = {"operator_new": 101, "operator_new_array": 102, "operator_delete": 101, "operator_delete_array": 102, "malloc": 103, "free": 103, "realloc": 103}
+    METH = {"operator_new": "allocMemory", "operator_new_array": "allocMemory", "malloc": "allocMemory", "operator_delete": "deallocMemory", "operator_delete_array": "deallocMemory", "free": "deallocMemory", "realloc": "reallocMemory"}
     for kind in ("default", "threadsafe"):
-        for s in slots:
-            mn = stored[kind].get(s)
+        for s_ in slots:
+            mn = stored[kind].get(s_)
             f = prog.functions.get(mn)
             if f is None:
                 continue
-            role = s[:-len("_fptr")]
+            role = s_[:-len("_fptr")]
             fam = re.sub(r"_(nothrow|debug)$", "", role)
-            getter = GET.get(fam)
-            # the detector call is made by the function itself or by a free helper of the same file it delegates to
-            def deep_calls(g, depth=2):
-                out = []
-                for c in g.calls():
-                    out.append((g, c))
-                    cc = c.get("callee")
-                    h = prog.functions.get(cc["mn"]) if cc and cc.get("dispatch") == "direct" else None
-                    if h is not None and depth > 0 and h.kind == "function" and h.file == g.file and h is not g and not h.cls:
-                        out += deep_calls(h, depth - 1)
-                return out
-            dcs = [(g, c) for g, c in deep_calls(f) if (prog.callee_name(g, c) or "").split("::")[-1] in ("allocMemory", "deallocMemory", "reallocMemory")]
-            dc = [c for g, c in dcs]
-            ok = len(dc) == 1 and getter is not None
-            w = None
-            if ok:
-                f_ = dcs[0][0]
-                a = [render(f_, x) for x in f_.args(dc[0])]
-                w = a
-                sep = a[-1] if a[-1] in ("true", "false") else None
-                is_malloc = fam in ("malloc", "free", "realloc")
-                want_meth = {"operator_new": "allocMemory", "operator_new_array": "allocMemory", "malloc": "allocMemory", "operator_delete": "deallocMemory", "operator_delete_array": "deallocMemory", "free": "deallocMemory", "realloc": "reallocMemory"}[fam]
-                ok = a[0] == getter and (prog.callee_name(f_, dc[0]) or "").endswith(want_meth) and ((sep == "true") == is_malloc or (sep is None and not is_malloc))
-                if ok and sep is None and not is_malloc:
-                    # default argument of the short overloads must be false
-                    pass
-            run.ob("R8", "%s slot %s -> %s uses %s, separate records %s" % (kind, s, f.name, getter, "yes" if fam in ("malloc", "free", "realloc") else "no"), f.site, ok, witness=w,
-                   what="" if ok else "the tracked %s function accounts with the wrong allocator family or record layout" % role)
+            is_malloc = fam in ("malloc", "free", "realloc")
+            try:
+                events, r_, end_, env_ = slot_fold(prog, f)
+            except Unknown as u:
+                run.broke("C04.R8: %s cannot be folded: %s" % (f.qn, u))
+                continue
+            det = [e for e in events if e[0] == "detector" and e[1] != "invalidateMemory"]
+            why = ""
+            if len(det) != 1 or det[0][1] != METH[fam]:
+                why = "calls %s; expected one %s" % ([e[1] for e in det], METH[fam])
+            else:
+                args = det[0][2]
+                pvals = [env_[q["name"]] for q in f.params]
+                if not args or args[0] != GETV[fam]:
+                    why = "accounts with allocator %s; the %s family uses %s" % ({101: "new", 102: "new[]", 103: "malloc"}.get(args[0] if args else None, args[:1]), fam, {101: "getCurrentNewAllocator()", 102: "getCurrentNewArrayAllocator()", 103: "getCurrentMallocAllocator()"}[GETV[fam]])
+                else:
+                    # the block / size handed on are the function's own parameters, in order
+                    own = [a_ for a_ in args[1:] if a_ in pvals]
+                    need = [v for q, v in zip(f.params, pvals) if "nothrow_t" not in q["ct"]]
+                    if own[:len(need)] != need:
+                        why = "passes %s of its parameters %s" % (own, need)
+                    sep = args[-1] if isinstance(args[-1], int) and args[-1] in (0, 1) and len(args) > 1 + len(need) else 0
+                    if not why and bool(sep) != is_malloc:
+                        why = "separate-record flag is %s for the %s family" % (sep, fam)
+            run.ob("R8", "%s slot %s -> %s accounts through %s with the %s allocator, separate records %s" % (kind, s_, f.name, METH[fam], fam, "yes" if is_malloc else "no"), f.site, not why, witness=[list(map(str, e)) for e in det],
+                   what="" if not why else "the tracked %s function accounts with the wrong allocator family or record layout: %s" % (role, why))
